@@ -211,6 +211,12 @@ def run(ctx):
     C02_hint.run(ctx)
     # <<< a_c02
 
+    # >>> w_fwd (wave 5): the method tables of the text Deserializer impls (Tables.de_tables, generated from src/text/de.rs)
+    # against the real deserializers through a recording visitor (props/demeth.py, Props/C02_methods.v)
+    from props import demeth
+    demeth.run_text(ctx)
+    # <<< w_fwd
+
     # scalar level: extracted Serde.text_scalar (typed hints with fall-back) against the real slice path
     from props import descalar
     ctx.correspond("scalar-hints", descalar.text_cases(ctx, ctx.scale(300, 3000)), nontrivial=nt)
